@@ -44,11 +44,13 @@ def entries3(R):
         ('SO3', lambda fn, **kw: getattr(sm.SO3(R.copy()), fn)(**kw)),
         ('SE3', lambda fn, **kw: getattr(sm.SE3(T.copy()), fn)(**kw)),
         ('UnitQuaternion', lambda fn, **kw: getattr(sm.UnitQuaternion(q), fn)(**kw)),
+        # the same rotation held as -q (negative scalar part), as products and angles beyond pi produce it
+        ('UnitQuaternion(-q)', lambda fn, **kw: getattr(sm.UnitQuaternion(-q, norm=False, check=False), fn)(**kw)),
     ]
 
 
 def site_of(en, fn):
-    return ('base.tr2' + fn) if en.startswith('base') else '%s.%s' % (en, fn)
+    return ('base.tr2' + fn) if en.startswith('base') else '%s.%s' % (en.split('(')[0], fn)
 
 
 def vec3(ctx, cid, site, P, v):
@@ -132,7 +134,7 @@ def eul_cases(ctx, part, nparts):
         triv = (phi == 0 and th == 0 and psi == 0)
         for en, f in entries3(R):
             site = site_of(en, 'eul')
-            flips = (False, True) if en != 'UnitQuaternion' else (None,)
+            flips = (False, True) if not en.startswith('UnitQuaternion') else (None,)
             for flip in flips:
                 base = 'C05/eul/phi=%s/th=%s/psi=%s/%s/flip=%s' % (fn_, tn, sn, en, flip)
                 P = dict(phi=fn_, theta=tn, psi=sn, entry=en, flip=str(flip))
